@@ -13,6 +13,7 @@ require (
 	github.com/bazelbuild/remote-apis v0.0.0-20260331222004-becdd8f9ff81
 	github.com/buildbarn/bb-remote-execution v0.0.0-00010101000000-000000000000
 	github.com/buildbarn/bb-storage v0.0.0-20260805174928-33530b6bb903
+	github.com/buildbarn/go-xdr v0.0.0-20240702182809-236788cf9e89
 	github.com/google/uuid v1.6.0
 	github.com/prometheus/client_golang v1.23.2
 	github.com/prometheus/client_model v0.6.2
